@@ -2,29 +2,39 @@ import ScyllaVerif.Model.Util
 import ScyllaVerif.Model.Ring
 import ScyllaVerif.Model.Replicas
 import ScyllaVerif.Model.Plan
+import ScyllaVerif.Model.Sharding
 import ScyllaVerif.Drive.Topology
 /-! Line-protocol driver for C05 (default load-balancing policy, `Plan`).
 
 Case: `plan[.<tag>] <topology> <keyspace strategies> <config> <request> <samples>` (topology syntax: `Drive/Topology.lean`;
-the flags word of a peer contains `d` = disabled by the host filter, `x` = no usable connection).
+the flags word of a peer contains `d` = disabled by the host filter, `x` = no usable connection, and optionally
+`s<nr_shards>.<msb_ignore>` = the node's sharder; `samples` > 0).
 ```
-config  := pref "/" ("t"|"n") "/" ("f"|"n") "/" ("s"|"x")      token-aware / failover permitted / shuffling (not read by the model)
+config  := pref "/" ("t"|"n") "/" ("f"|"n") "/" ("s"|"x")      token-aware / failover permitted / replica shuffling
 pref    := "i" (inherit; config only) | "a" (Any) | "d"<dc> | "r"<dc>"."<rack>
 request := (token|"-") "/" (keyspace index|"-") "/" ("0"|"1") "/" consistency "/" serial "/" pref
            consistency := any one two three quorum all lq eq lo serial lserial;  serial := "-" | "s" | "l" (never read)
 ```
-Implementation line: `set=<ids> rep=<ids> lwt=<ids|x> | <sample>*` with `sample := P<target|->/F<targets>/L<ids>`
-(`target := id ["s"]`, `s` = the policy supplied a shard): one `pick`, one `fallback` and one `Plan` iteration per sample,
-each with fresh random choices of the thread RNG.
+Implementation line: `set=<ids> rep=<targets> lwt=<targets|x> det=<ids|*> | <sample>*` with
+`sample := P<target|->/F<targets>/L<targets>`, `target := id ["@" shard]`: one `pick`, one `fallback` and one `Plan`
+iteration per sample, each with fresh random choices of the thread RNG.
 
-The model prints `set` (node ids of the plan, sorted - independent of the random choices), `rep` (ids that occur as
-replicas, i.e. with a shard), `lwt` (the replica prefix in order for LWT requests) itself, and then acts as a CHECKER for
-the samples: a sample is echoed iff `pick` is one of the model's possible answers, `fallback` decomposes into the model's
-groups (each group: the expected members minus those already seen; any order for a shuffled replica group, one of the
-model's rotations for a round-robin group, exactly the model's order otherwise) and the plan is `planOf` of a possible
-pick and an acceptable fallback. Otherwise `REJECT …`. -/
+The model prints by itself (compared exactly): `set` (node ids of `planRun` at the zero choices, sorted - independent of
+the random choices), `rep` (the targets that carry a shard, with the shard the C11 model `shardOfImpl` gives), `lwt` (the
+replica prefix in order for LWT requests), and `det`: when the model's groups leave no room for a random choice (every
+group contributes at most one new node or has a fixed order, and the first non-empty group is a singleton or an LWT
+replica list) the ids of `planRun (pick ρ0) (fallback ρ0)`, else the implementation's token.
+
+For the samples it is a CHECKER that decides by RUNNING the model: from an observed list it reconstructs the random
+choices (one rotation offset per round-robin group, the draws of `shuffleWith` per shuffled replica group) and accepts iff
+`fallback ρf` is exactly the observed fallback, the observed pick is `pick ρp` for some `ρp` of the index grid, and the
+observed plan is `planRun (pick ρp) (fallback ρf)` (the `Plan::next` state machine; shards supplied by the policy must
+match, a shard drawn by `Plan` must be below the node's shard count).  With replica shuffling disabled (`x`) the replica
+pick, the replica part of the fallback and the replica part of the plan must additionally be the same in all samples of
+the case (one policy object = one fixed seed).  Otherwise `REJECT …`. -/
 namespace ScyllaVerif.Drive.C05
 open ScyllaVerif.Util ScyllaVerif.Ring ScyllaVerif.Replicas ScyllaVerif.Plan ScyllaVerif.Drive.Topology
+open ScyllaVerif.Sharding (shardOfImpl)
 
 def parsePref (s : String) : Option Pref :=
   if s == "a" then some .any
@@ -40,12 +50,13 @@ def parsePref (s : String) : Option Pref :=
 def parseFlag (yes no s : String) : Option Bool :=
   if s == yes then some true else if s == no then some false else none
 
-def parseConfig (s : String) : Option Config :=
+/-- The configuration and the shuffle flag (`true` = replicas shuffled per call, `false` = fixed seed). -/
+def parseConfig (s : String) : Option (Config × Bool) :=
   match s.splitOn "/" with
   | [p, ta, fo, sh] =>
     let pref : Option (Option Pref) := if p == "i" then some none else (parsePref p).map some
     match pref, parseFlag "t" "n" ta, parseFlag "f" "n" fo, parseFlag "s" "x" sh with
-    | some pref, some ta, some fo, some _ => some ⟨pref, ta, fo⟩
+    | some pref, some ta, some fo, some sh => some (⟨pref, ta, fo⟩, sh)
     | _, _, _, _ => none
   | _ => none
 
@@ -70,108 +81,220 @@ def parseRequest (s : String) : Option Request :=
     | _, _, _, _, _ => none
   | _ => none
 
-/-- Flags → the lists of disabled / down host ids. -/
-def mkCluster (ps : List (Peer × String)) (ks : List Strategy) : Cluster :=
+/-- The sharder of a flags word: `s<n>.<msb>`; `some none` = no sharder, `none` = malformed. -/
+def parseSharder (flags : String) : Option (Option (Nat × Nat)) :=
+  match flags.splitOn "s" with
+  | [_] => some none
+  | [_, spec] =>
+    match spec.splitOn "." with
+    | [n, m] => match n.toNat?, m.toNat? with
+      | some n, some m => if 0 < n && n ≤ 65535 && m < 64 then some (some (n, m)) else none
+      | _, _ => none
+    | _ => none
+  | _ => none
+
+/-- Flags → disabled / down host ids and `with_computed_shard` for the request's token (`Sharder::shard_of`, the C11
+model; a node without sharder answers 0). -/
+def mkCluster (ps : List (Peer × String)) (ks : List Strategy) (tok : Option Int) : Cluster :=
+  let sharders : List (Nat × (Nat × Nat)) :=
+    ps.filterMap (fun p => match parseSharder p.2 with | some (some sh) => some (p.1.node.id, sh) | _ => none)
   { loc := Topology.locator (ps.map (·.1)) ks
     keyspaces := ks
     disabled := (ps.filter (fun p => p.2.contains 'd')).map (·.1.node.id)
     down := (ps.filter (fun p => p.2.contains 'x')).map (·.1.node.id)
-    sh := fun _ => 0 }
+    sh := fun id => match sharders.lookup id, tok with
+      | some (n, msb), some t => shardOfImpl n (UInt8.ofNat msb) (Int64.ofInt t)
+      | _, _ => 0 }
 
-/-- Observed target: host id and whether the policy supplied a shard. -/
-abbrev Obs := Nat × Bool
+/-- `nr_shards` of a node for `with_random_shard_if_unknown` (1 without sharder). -/
+def nrShards (ps : List (Peer × String)) (id : Nat) : Nat :=
+  match ps.find? (fun p => p.1.node.id == id) with
+  | some p => match parseSharder p.2 with | some (some (n, _)) => n | _ => 1
+  | none => 1
 
-def obsOf (t : Target) : Obs := (t.1.id, t.2.isSome)
+/-- Observed target: host id and the shard, if one was supplied. -/
+abbrev Obs := Nat × Option Nat
+
+def obsOf (t : Target) : Obs := (t.1.id, t.2)
 
 def parseObs (s : String) : Option Obs :=
-  if s.endsWith "s" then (s.dropEnd 1).toString.toNat?.map (·, true) else s.toNat?.map (·, false)
+  match s.splitOn "@" with
+  | [id] => id.toNat?.map (·, none)
+  | [id, sh] => match id.toNat?, sh.toNat? with
+    | some id, some sh => some (id, some sh)
+    | _, _ => none
+  | _ => none
 
 def parseObsList (s : String) : Option (List Obs) :=
   if s == "-" then some [] else (s.splitOn ",").mapM parseObs
 
-/-- First occurrence per host id. -/
-def dedupObs : List Obs → List Nat → List Obs
-  | [], _ => []
-  | o :: l, seen => if seen.contains o.1 then dedupObs l seen else o :: dedupObs l (o.1 :: seen)
-
-def sortNat (l : List Nat) : List Nat := l.mergeSort (fun a b => decide (a ≤ b))
-
-/-- A group of the fallback chain as the checker sees it: `perm` = any order is acceptable; `alts` = the orders the
-model can produce (before removing already seen ids). -/
-structure GroupSpec where
-  perm : Bool
-  alts : List (List Obs)
-
-/-- Does the observed list decompose into the groups?  `marks` = compare the shard marks too. -/
-def checkGroups (marks : Bool) : List GroupSpec → List Nat → List Obs → Bool
-  | [], _, obs => obs.isEmpty
-  | g :: gs, seen, obs =>
-    let norm : List Obs → List Obs := fun l => if marks then l else l.map (fun o => (o.1, false))
-    let exps := g.alts.map (fun a => norm (dedupObs a seen))
-    match exps with
-    | [] => false
-    | e0 :: _ =>
-      let k := e0.length
-      let block := norm (obs.take k)
-      let ok := block.length == k && (if g.perm then e0.all (block.contains ·) else exps.any (· == block))
-      ok && checkGroups marks gs (seen ++ e0.map (·.1)) (obs.drop k)
-
-def showObs (o : Obs) : String := toString o.1 ++ (if o.2 then "s" else "")
+def showObs (o : Obs) : String := toString o.1 ++ (match o.2 with | some s => "@" ++ toString s | none => "")
 
 def showObsList (l : List Obs) : String := if l.isEmpty then "-" else ",".intercalate (l.map showObs)
 
 def showPick (p : Option Obs) : String := match p with | none => "-" | some o => showObs o
+
+/-- First occurrences that are not in `seen`. -/
+def dedupIds : List Nat → List Nat → List Nat
+  | [], _ => []
+  | a :: l, seen => if seen.contains a then dedupIds l seen else a :: dedupIds l (a :: seen)
+
+def sortNat (l : List Nat) : List Nat := l.mergeSort (fun a b => decide (a ≤ b))
+
+def sortObs (l : List Obs) : List Obs := l.mergeSort (fun a b => decide (a.1 ≤ b.1))
+
+/-- Draws `ks` with `shuffleWith ks l = p` for a permutation `p` of the duplicate-free `l`. -/
+def unshuffle {α : Type} [BEq α] : List α → List α → List Nat
+  | [], _ => []
+  | a :: l, p => p.idxOf a :: unshuffle l (p.erase a)
+
+structure RecState where
+  seen : List Nat
+  rest : List Nat
+  shufs : List (List Nat)
+  rots : List Nat
+
+/-- Reconstructs the random choices of `fallback` from the observed order of host ids (`seen0` = ids to treat as
+already seen: the picked target of a plan).  `groupsAt[k]` = the model's groups under rotation offset `k` and no
+shuffle.  The result is only a proposal: the caller runs the model with it and compares. -/
+def recoverFb (groupsAt : List (List (List Target))) (lwt : Bool) (obsIds : List Nat) (seen0 : List Nat) : RhoFb :=
+  let base := groupsAt.headD []
+  let step := fun (st : RecState) (i : Nat) =>
+    let gb := base.getD i []
+    let exp := dedupIds (gb.map (·.1.id)) st.seen
+    let block := st.rest.take exp.length
+    let rest := st.rest.drop exp.length
+    let seen := st.seen ++ exp
+    if i < 3 then
+      let shuf : List Nat :=
+        if lwt then []
+        else
+          let full := gb.filter (fun t => !block.contains t.1.id) ++
+            block.filterMap (fun id => gb.find? (fun t => t.1.id == id))
+          unshuffle gb full
+      { seen := seen, rest := rest, shufs := st.shufs ++ [shuf], rots := st.rots }
+    else if i < 6 then
+      let k := ((List.range groupsAt.length).find? (fun k =>
+        dedupIds (((groupsAt.getD k []).getD i []).map (·.1.id)) st.seen == block)).getD 0
+      { seen := seen, rest := rest, shufs := st.shufs, rots := st.rots ++ [k] }
+    else { seen := seen, rest := rest, shufs := st.shufs, rots := st.rots }
+  let st := (List.range 8).foldl step ⟨seen0, obsIds, [], []⟩
+  ⟨st.shufs.getD 0 [], st.shufs.getD 1 [], st.shufs.getD 2 [], st.rots.getD 0 0, st.rots.getD 1 0, st.rots.getD 2 0⟩
+
+/-- Do the model's groups leave no room for a random choice?  (see the module comment) -/
+def modelDeterministic (base : List (List Target)) (lwt : Bool) : Bool :=
+  let firstNonEmpty := (List.range 8).find? (fun i => !(base.getD i []).isEmpty)
+  let headOk := match firstNonEmpty with
+    | none => true
+    | some f => (base.getD f []).length ≤ 1 || (decide (f < 3) && lwt)
+  let rec go (i : Nat) (fuel : Nat) (seen : List Nat) : Bool :=
+    match fuel with
+    | 0 => true
+    | fuel + 1 =>
+      let exp := dedupIds ((base.getD i []).map (·.1.id)) seen
+      (exp.length ≤ 1 || (decide (i < 3) && lwt) || decide (6 ≤ i)) && go (i + 1) fuel (seen ++ exp)
+  headOk && go 0 8 []
+
+/-- Observed plan (every target with a shard) against a model plan: same nodes in the same order; a shard supplied by the
+policy must be the observed one, a shard drawn by `Plan` is below the node's shard count. -/
+def matchPlan (ps : List (Peer × String)) : List Target → List (Nat × Nat) → Bool
+  | [], [] => true
+  | t :: ts, o :: os =>
+    t.1.id == o.1 && (match t.2 with | some s => s == o.2 | none => decide (o.2 < nrShards ps o.1)) && matchPlan ps ts os
+  | _, _ => false
+
+def parsePlanObs (s : String) : Option (List (Nat × Nat)) :=
+  match parseObsList s with
+  | some l => l.mapM (fun o => o.2.map (o.1, ·))
+  | none => none
+
+structure Sample where
+  pick : Option Obs
+  fb : List Obs
+  plan : List (Nat × Nat)
+
+def parseSample (s : String) : Option Sample :=
+  match s.splitOn "/" with
+  | [p, f, l] =>
+    if !(p.startsWith "P" && f.startsWith "F" && l.startsWith "L") then none else
+    let p := (p.drop 1).toString
+    let pk : Option (Option Obs) := if p == "-" then some none else (parseObs p).map some
+    match pk, parseObsList (f.drop 1).toString, parsePlanObs (l.drop 1).toString with
+    | some pk, some f, some l => some ⟨pk, f, l⟩
+    | _, _, _ => none
+  | _ => none
 
 def run (case impl : String) : String :=
   match words case with
   | [head, topo, kss, cfg, req, nSamples] =>
     if !(head == "plan" || head.startsWith "plan.") then "bad-case" else
     match parseTopologyEx topo, parseStrategies kss, parseConfig cfg, parseRequest req, nSamples.toNat? with
-    | some ps, some ks, some cfg, some rq, some _ =>
-      let cl := mkCluster ps ks
+    | some ps, some ks, some (cfg, shuffle), some rq, some nS =>
+      if nS == 0 || ps.any (fun p => (parseSharder p.2).isNone) then "bad-case" else
+      let cl := mkCluster ps ks rq.token
       let lwt := rq.routeAsLwt
       let n := (allNodes cl).length + 1
-      let ρ0 : RhoFb := ⟨[], [], [], 0, 0, 0⟩
-      -- ρ-independent summary
-      let fb0 := fallback cl cfg rq ρ0
-      let setIds := sortNat (fb0.map (·.1.id))
-      let repIds := sortNat ((fb0.filter (·.2.isSome)).map (·.1.id))
-      let lwtIds := if lwt then natList ((fb0.filter (·.2.isSome)).map (·.1.id)) else "x"
-      let pre := s!"set={natList setIds} rep={natList repIds} lwt={lwtIds} |"
-      -- checker data: the groups under every rotation offset, the possible answers of `pick`
+      let ρp0 : RhoPick := ⟨0, 0, 0, 0, 0, 0, 0, 0, 0, 0, 0⟩
+      let ρf0 : RhoFb := ⟨[], [], [], 0, 0, 0⟩
+      -- what does not depend on the random choices, from running the model's state machine at the zero choices
+      let fb0 := fallback cl cfg rq ρf0
+      let plan0 := planRun (pick cl cfg rq ρp0) fb0 (fb0.length + 3) .created
+      if plan0 != plan cl cfg rq ρp0 ρf0 then "MODEL-INCONSISTENT planRun/planOf" else
+      let setIds := sortNat (plan0.map (·.1.id))
+      let reps := (fb0.filter (·.2.isSome)).map obsOf
+      let repIds := reps.map (·.1)
+      let lwtS := if lwt then showObsList reps else "x"
       let groupsAt := (List.range n).map (fun k => fallbackGroups cl cfg rq ⟨[], [], [], k, k, k⟩)
-      let specs : List GroupSpec := (List.range 8).map (fun i =>
-        { perm := decide (i < 3) && !lwt
-          alts := (groupsAt.map (fun gs => (gs.getD i []).map obsOf)).eraseDups })
-      let picks : List (Option Obs) :=
-        ((List.range n).flatMap (fun i => (List.range n).map (fun j =>
-          (pick cl cfg rq ⟨i, j, i, j, i, j, i, i, i, i, i⟩).map obsOf))).eraseDups
-      let planOk (l : List Obs) : Bool :=
-        (picks.contains none && checkGroups false specs [] l) ||
-        picks.any (fun p => match p, l with
-          | some o, h :: t => h.1 == o.1 && checkGroups false specs [o.1] t
-          | _, _ => false)
       let ws := words impl
+      let implDet := ((ws.find? (·.startsWith "det=")).getD "det=?")
+      let detS := if modelDeterministic (groupsAt.headD []) lwt then "det=" ++ natList (plan0.map (·.1.id)) else implDet
+      let pre := s!"set={natList setIds} rep={showObsList (sortObs reps)} lwt={lwtS} {detS} |"
+      -- the possible answers of `pick`, each with random choices that produce it
+      let picks : List (RhoPick × Option Target) :=
+        ((List.range n).flatMap (fun i => (List.range n).map (fun j =>
+          let ρ : RhoPick := ⟨i, j, i, j, i, j, i, i, i, i, i⟩
+          (ρ, pick cl cfg rq ρ)))).foldl
+          (fun acc x => if acc.any (fun y => y.2 == x.2) then acc else acc ++ [x]) []
+      let fbOk (f : List Obs) : Bool :=
+        (fallback cl cfg rq (recoverFb groupsAt lwt (f.map (·.1)) [])).map obsOf == f
+      let planOk (l : List (Nat × Nat)) : Bool :=
+        let ids := l.map (·.1)
+        picks.any (fun (ρp, pk) =>
+          let headOk := match pk, ids with
+            | some t, h :: _ => h == t.1.id
+            | some _, [] => false
+            | none, _ => true
+          headOk &&
+            (let ρf := match pk with
+               | some t => recoverFb groupsAt lwt (ids.drop 1) [t.1.id]
+               | none => recoverFb groupsAt lwt ids []
+             let fb := fallback cl cfg rq ρf
+             let r := planRun pk fb (fb.length + 3) .created
+             r == plan cl cfg rq ρp ρf && matchPlan ps r l))
       match ws.dropWhile (· != "|") with
       | [] => pre ++ " REJECT no-samples-part"
-      | _ :: samples =>
-        let verdicts := samples.map (fun s =>
-          match s.splitOn "/" with
-          | [p, f, l] =>
-            if !(p.startsWith "P" && f.startsWith "F" && l.startsWith "L") then some "unparsable" else
-            let p := (p.drop 1).toString
-            let pk : Option (Option Obs) := if p == "-" then some none else (parseObs p).map some
-            match pk, parseObsList (f.drop 1).toString, parseObsList (l.drop 1).toString with
-            | some pk, some f, some l =>
-              if !picks.contains pk then some ("pick-not-in " ++ " ".intercalate (picks.map showPick))
-              else if !checkGroups true specs [] f then some ("fallback-not-producible e.g. " ++ showObsList (fb0.map obsOf))
-              else if !planOk l then some "plan-not-producible"
-              else none
-            | _, _, _ => some "unparsable"
-          | _ => some "unparsable")
-        match (verdicts.zip samples).find? (·.1.isSome) with
-        | some (some why, s) => pre ++ " REJECT " ++ s ++ " " ++ why
-        | _ => pre ++ String.join (samples.map (" " ++ ·))
+      | _ :: sampleWords =>
+        if sampleWords.length != nS then pre ++ s!" REJECT expected-{nS}-samples-got-{sampleWords.length}" else
+        match sampleWords.mapM parseSample with
+        | none => pre ++ " REJECT unparsable-sample"
+        | some samples =>
+          let verdicts := (samples.zip sampleWords).map (fun (sm, w) =>
+            if !(picks.any (fun p => p.2.map obsOf == sm.pick)) then
+              some (w ++ " pick-not-in " ++ " ".intercalate (picks.map (fun p => showPick (p.2.map obsOf))))
+            else if !fbOk sm.fb then some (w ++ " fallback-not-producible e.g. " ++ showObsList (fb0.map obsOf))
+            else if !planOk sm.plan then some (w ++ " plan-not-producible")
+            else none)
+          -- replica shuffling disabled: one fixed seed per policy, so the replica choices repeat
+          let fixedPart (sm : Sample) : Option Obs × List Obs × List Nat :=
+            (sm.pick.filter (·.2.isSome), sm.fb.filter (·.2.isSome), (sm.plan.map (·.1)).filter (repIds.contains ·))
+          let shuffleOk := shuffle || match samples with
+            | [] => true
+            | s0 :: rest => rest.all (fun sm => fixedPart sm == fixedPart s0)
+          match verdicts.find? (·.isSome) with
+          | some (some why) => pre ++ " REJECT " ++ why
+          | _ =>
+            if !shuffleOk then pre ++ " REJECT shuffling-disabled-but-replica-choices-vary"
+            else pre ++ String.join (sampleWords.map (" " ++ ·))
     | _, _, _, _, _ => "bad-case"
   | _ => "bad-case"
 
